@@ -63,6 +63,10 @@ def run(ctx):
     # by zero or the padding loop spin: no finite component array)
     from . import c05
     ctx.rule(c05.rule_strict_search, 'C03.R10')
+    # masked peeling: layer k is the masked extraction with the caller's settings (the requested number of phases
+    # reaches every dispatch - a silently replaced count changes what "the k-th masked component" is)
+    from . import c07
+    ctx.rule(c07.rule_phase_count, 'C03.R12')
     from . import l2
     ctx.rule(l2.rule_inplace_input_dtype, 'C03.R11', ['emd.sift.sift', 'emd.sift.mask_sift', 'emd.sift.ensemble_sift',
                                                      'emd.sift.complete_ensemble_sift', 'emd.sift.get_next_imf',
